@@ -108,7 +108,9 @@ def emit_family(gname, mandatory, optional, cells, aliases=None, containers=("Bo
         for req in subsets(optional):
             if not req:
                 continue
-            impl_list = " + ".join(req)
+            # the request is written in name order (the macros sort it; unsorted spellings are probed by gen/castprobe_c08.py,
+            # where a spelling the macros reject is a verdict instead of a harness that does not build)
+            impl_list = " + ".join(sorted(req))
             for cont in containers + (("Fwd",) if fwd_of is not None else ()):
                 en = fwd_of(en_decl) if cont == "Fwd" else en_decl
                 expect = all(r in en for r in req)
@@ -198,7 +200,7 @@ def emit_family(gname, mandatory, optional, cells, aliases=None, containers=("Bo
             if not req or "Box" not in containers:
                 continue
             expect = all(r in en for r in req)
-            impl_list = " + ".join(req)
+            impl_list = " + ".join(sorted(req))
             for op in ("cast", "into"):
                 fname = "cell_%s_%s_%s_box_%s_expr" % (gname.lower(), "".join(en).lower() or "none", "".join(req).lower(), op)
                 cells.append((fname, gname, en, req, "Box", op + "_expr", expect))
@@ -224,7 +226,7 @@ def emit_family(gname, mandatory, optional, cells, aliases=None, containers=("Bo
                 continue
             expect = all(r in en for r in req)
             for pos in (0, len(req) - 1):
-                impl_list = " + ".join(("crate::" + t) if k == pos else t for k, t in enumerate(req))
+                impl_list = " + ".join(("crate::" + t) if k == pos else t for k, t in enumerate(sorted(req)))
                 for op in ("check", "cast"):
                     fname = "cell_%s_%s_%s_box_%s_path%d" % (gname.lower(), "".join(en).lower() or "none", "".join(req).lower(), op, pos)
                     cells.append((fname, gname, en, req, "Box", op + "_path", expect))
@@ -302,7 +304,7 @@ def emit_layout(gname, mandatory_list, optional, layouts, containers):
                     w("    if words[%d] != ::std::sync::Arc::as_ptr(&arc) as usize || words[%d] == 0 || words[%d] == 0 { return Err((\"layout:context\".into(), format!(\"{}: the context (CArc: instance, clone_fn, drop_fn) does not follow the instance\", what))); }" % (nvt + inst_words, nvt + inst_words + 1, nvt + inst_words + 2))
                 # cast to the full enabled set keeps the bit pattern; the final form keeps mandatory + requested + container
                 if en:
-                    impl_list = " + ".join(en)
+                    impl_list = " + ".join(sorted(en))
                     w("    let c = match cast!(g impl %s) { Some(c) => c, None => return Err((\"layout:cast\".into(), format!(\"{}: cast to the enabled set failed\", what))) };" % impl_list)
                     w("    if words_of(&c) != words { return Err((\"layout:cast_bits\".into(), format!(\"{}: cast changed the bit pattern of the object\", what))); }")
                     w("    let back = c.upcast();")
